@@ -3,36 +3,39 @@ from common import LEAN_TB
 CFG = {'lean_modules': ['ObiVerif.Props.C19'],
  'gen': True,
  'thorough_seeds': 8,
- 'rule': 'cases = (operation, parameters, sequences): e4 = Encode4mer on sequences of 0..300 bytes (plain bases, IUPAC letters, upper case, '
-         'non-letters), every length 0..6 in the corpus; c4 = Count4Mer on a unit repeated n times (incl. 65539 x a); nk = NewKmerMap[Uint64|Uint128|Uint256] '
-         '+ NormalizedKmerSlice + KmerAsString for requested k = 2..W/2 (also 2k = W), dense and sparse (k made even/odd by the code), sequences shorter '
-         'than / equal to / longer than k and longer than the machine word, with ambiguity codes, u, palindromic at-only sequences; g = MakeDeBruijnGraph(k), '
-         'k = 2..31 (+ 1 and 32), 1..5 reads derived from a template with substitutions, truncations, reads of exactly k bases, internal repeats (branches, '
+ 'rule': 'cases = (operation, parameters, sequences): e4 = Encode4mer on sequences of 0..300 bytes (plain bases, IUPAC letters, upper case, non-letters), '
+         'every length 0..6 in the corpus; c4 = Count4Mer on a unit repeated n times (incl. 65539 x a); nk = NewKmerMap[Uint64|Uint128|Uint256] + '
+         'NormalizedKmerSlice + KmerAsString for requested k = 2..W/2 (also 2k = W), dense and sparse (k made even/odd by the code), sequences shorter than / '
+         'equal to / longer than k and longer than the machine word, with ambiguity codes, u, palindromic at-only sequences; g = MakeDeBruijnGraph(k), k = '
+         '2..31 (+ 1 and 32), 1..5 reads derived from a template with substitutions, truncations, reads of exactly k bases, internal repeats (branches, '
          'cycles), 2-3 letter alphabets for dense small graphs, up to three ambiguity codes per read, counts 1..20, a few bytes outside the IUPAC table; the '
-         'first corpus lines pin every defect found on the unchanged code; non-trivial = distinct well-formed case inside the domain of the word type (2k <= W)',
+         'first corpus lines pin every defect found on the unchanged code; non-trivial = distinct well-formed case inside the domain of the word type (2k <= '
+         'W)',
  'technique': 'Lean 4 theorems on executable models of the k-mer code (table facts decided over the tables regenerated from the source; word arithmetic, '
               'sliding-window and strand-symmetry laws by induction) + differential correspondence of the models with the real pkg/obikmer functions on the '
-              'three obifp word types + independent oracles on the real code (naive 4-mer and canonical k-mer enumeration on strings and big integers, '
-              'strand invariance by actually reverse-complementing, per-window IUPAC expansion for the weights, Kahn elimination for cycles, brute force over all '
+              'three obifp word types + independent oracles on the real code (naive 4-mer and canonical k-mer enumeration on strings and big integers, strand '
+              'invariance by actually reverse-complementing, per-window IUPAC expansion for the weights, Kahn elimination for cycles, brute force over all '
               'walks and dynamic programming for the heaviest walk)',
  'level_text': 'Proved for all inputs on the models of the repaired code: encode4_exact (Encode4mer = the codes of the 4-mers in order, none below 4 bases, no '
                'panic); count4_mod (table cell = occurrences modulo 2^16) and count4_exact_partial (exact below 65539 bases) with count4_overflow as '
                'counterexample to the unrestricted statement; canon_exact (for every word width W, every k with 1 <= k and 2k <= W, dense or sparse, every '
-               'byte sequence of any length: NewKmerMap does not panic and NormalizedKmerSlice returns, in order, for every window of k unambiguous bases, '
-               'the smaller of the k-mer and its reverse complement, central base erased in sparse mode) and canon_strand_invariant (the reverse complement '
-               'of a sequence gives the reversed list, hence the same multiset). For the De Bruijn graph: push_weights_partial (for reads without ambiguity '
-               'code, any number of reads, any lengths incl. exactly k, k <= 32: weight = sum of count x occurrences) and nil_iff_hasCycle (HaviestPath '
-               'returns nil iff HasCycle answers true). NOT proved in Lean, only tied by the correspondence check and checked by the oracle on the real code '
-               'at every run: weights of reads with ambiguity codes, correctness of the depth-first cycle detection, heaviest_is_walk, heaviest_optimal, '
-               'termination of the label-correcting loop within a fuel, single_read_roundtrip (false as stated in the property: roundtrip_counterexample).',
+               'byte sequence of any length: NewKmerMap does not panic and NormalizedKmerSlice returns, in order, for every window of k unambiguous bases, the '
+               'smaller of the k-mer and its reverse complement, central base erased in sparse mode) and canon_strand_invariant (the reverse complement of a '
+               'sequence gives the reversed list, hence the same multiset). For the De Bruijn graph (deepening round, all proved): push_weights / '
+               'push_weights_iupac (any reads incl. IUPAC ambiguity codes: weight = sum of count x number of windows one of whose readings is the k-mer, '
+               'readings over the regenerated table), hasCycle_iff (the DFS answers true iff the graph has a directed cycle, and its fuel never runs out), '
+               'heaviest_is_walk, heaviest_terminates (fuel bound hpBound), heaviest_optimal (positive weights: no walk from a source is heavier; '
+               'optimal_zero_weight_counterexample shows why counts >= 1 are needed), none_iff_cycle (no path returned iff the graph is cyclic), '
+               'single_read_roundtrip / _plain (a single read without repeated (k-1)-mer is returned unchanged; roundtrip_counterexample: "no repeated k-mer" '
+               'is not enough).',
  'level_note': 'Trusted: Lean kernel; the transcriptions Model/Kmer.lean and Model/DeBruijn.lean; obifp words are modelled as naturals below 2^W with '
                'LeftShift = (x * 2^n) mod 2^W, RightShift = x / 2^n, And/Or = Nat.land/lor, Not = 2^W-1-x, Sub panicking on underflow - the agreement of '
                'pkg/obifp with that arithmetic is property C20 (and is exercised here on Uint64/128/256 by the correspondence); the Go map of the graph is an '
                'association list; container/heap over UInt64Heap is modelled as extract-min of a multiset; LongestConsensus only with min_cov = 0 (the '
                'trimming branch uses floats); weights as naturals (no uint/int overflow).',
  'trusted_base': LEAN_TB + ['extract/ (go/ast literal extraction of iupac, revcompnuc, decode, __single_base_code__)',
-                            'naive string/big-integer k-mer references, Kahn and walk enumeration oracles in harness/c19.go',
-                            'C20 for the meaning of the obifp operations'],
+ 'naive string/big-integer k-mer references, Kahn and walk enumeration oracles in harness/c19.go',
+ 'C20 for the meaning of the obifp operations'],
  'modelled': 'pkg/obikmer encodefourmer.go (Encode4mer), counting.go (Count4Mer), kmermap.go (NewKmerMap parameters and masks, NormalizedKmerSlice, '
              'KmerAsString), debruijn.go (MakeDeBruijnGraph, Push, Weight, Nexts, Previouses, Heads, HasCycle, HaviestPath, DecodeNode, DecodePath, '
              'LongestConsensus with min_cov = 0) - as repaired by notes/patches/C19-*.diff',
